@@ -10,7 +10,7 @@ from supervisor.states import RUNNING_STATES
 
 from vsim import gen
 from vsim.cluster import TICK, views, groups, vt, ident
-from vsim.sim import World
+from vsim.sim import World, Runaway
 
 BEHAVIOURS = ['normal'] * 6 + ['slow_stop', 'stubborn', 'crash_early', 'backoff_then_run', 'exit_expected',
                                 'exit_unexpected', 'fork_error', 'no_file', 'slow_start']
@@ -68,6 +68,10 @@ def make_scenario(rng, knobs):
                     kind = rng.choice(['exit_expected'] * 4 + ['exit_unexpected', 'normal', 'crash_early'])
                 else:
                     kind = rng.choice(kinds)
+                if kind in ('no_file', 'crash_early', 'fork_error', 'exit_unexpected') and app['managed'] and \
+                        prog.get('running_failure_eff') in ('RESTART_APPLICATION', 'RESTART_PROCESS') and \
+                        rng.random() < 0.85:
+                    kind = 'normal'   # a program that always fails with a RESTART strategy is a restart storm
                 per_instance = rng.random() < 0.2
                 for spec in specs:
                     k = rng.choice(kinds) if per_instance else kind
@@ -234,6 +238,13 @@ class Run:
         try:
             for monitor in self.monitors:
                 monitor.attach(self)
+            self.injected = []
+            if knobs.get('crash_on_request_p'):
+                from vsim.faults import crash_target_on_request
+                crash_target_on_request(self, knobs['crash_on_request_p'])
+            if knobs.get('drop_p'):
+                from vsim.faults import drop_process_publications
+                drop_process_publications(self, self.rng.choice(knobs['drop_p']))
             stagger = self.rng.choice([0.0, 1.0, 4.0])
             for spec in w.specs:
                 w.at(w.now + self.rng.uniform(0.0, stagger), w.start_instance, spec['nick'])
@@ -257,14 +268,23 @@ class Run:
             w.run_for(2 * TICK)
             self.outcome['quiescent'] = w.quiescent()
             self.outcome['views'] = views(w)
+            return self.conclude()
+        except Runaway:
+            # e.g. a restart storm (a program that cannot be spawned with a RESTART strategy): the online monitors
+            # have seen everything that happened; the end-of-run oracles are not evaluated
+            self.count('runaway_cases')
+            w.max_steps = 10 ** 9
+            return [v for monitor in self.monitors for v in monitor.violations]
+        finally:
+            w.close()
+
+    def conclude(self):
             violations = []
             for monitor in self.monitors:
                 violations.extend(monitor.finish(self) or [])
                 for name, value in monitor.counters.items():
                     self.count(name, value)
             return violations
-        finally:
-            w.close()
 
     def describe(self):
         scn = self.scenario
@@ -283,6 +303,7 @@ class Run:
                          for a, m in scn['model'].items()},
                 'groups': {s['nick']: {g: list(p) for g, p in s['groups'].items()} for s in scn['instances']},
                 'disabled': {s['nick']: s.get('disabled') for s in scn['instances'] if s.get('disabled')},
+                'injected_faults': getattr(self, 'injected', []),
                 'actions': [{k: v for k, v in a.items() if k != 'res'} |
                             {'res': (a['res'][:2] if isinstance(a.get('res'), tuple) else a.get('res'))}
                             for a in self.actions]}
